@@ -133,6 +133,21 @@ func cmdV2BT(args []string) {
 						rec.Add(v2ErrBody(&v, temporal, false, "T", err), src)
 						continue
 					}
+					// vary what was asked of the object before its lower-level views are read
+					if pre := rng.Intn(3); pre > 0 {
+						switch {
+						case dec == 'E' && pre == 1:
+							o.e.Score()
+						case dec == 'E':
+							o.e.Severity()
+							o.e.Encode()
+						case dec == 'T' && pre == 1:
+							o.t.Score()
+						case dec == 'T':
+							o.t.Encode()
+						}
+						src += fmt.Sprintf(" after=%d", pre)
+					}
 					rec.Add(v2EventBody(&v, false, false, "B", o.b.Score(), o.b.Severity().String()), src+" via=BaseMetrics")
 					if dec == 'B' {
 						rec.Add(v2EventBody(&v, false, false, "B", o.b.Score(), o.b.Severity().String()), src+" via=Score")
